@@ -154,4 +154,35 @@ PROPS = {
                       'has an idle clock (regenerated fact metaInitNow) so nothing cached escapes the cleaner; after eviction, subscribe + an accepted response serve the name again (in the C01 specification).',
         'level_note': 'Trusted: Lean kernel; extractor (cleanerShape, expireSec, reserved, metaInitNow); verif hook VerifBackdate; real-time ticker.',
     },
+    'C16': {
+        'rule': '120 real managers with the scripted control plane, four subscribed clusters; 2-6 cluster updates each (a cluster present with probability 0.65, outlier detection absent / threshold in {0,1,20,50,100} x volume in {0,1,10,1000}); '
+                'the breaker (NewCircuitBreaker through client.Options) is created before the first update or after a random one; after every update CBSuite.Dump() is compared. Non-trivial: at least two updates',
+        'assumptions': COMMON_ASSUME + ['the update the handler sees is the accepted cluster set filtered by the interest set (C01); evictions are outside this property',
+                                         'rates are compared as round(rate*100); Kitex CBSuite is trusted'],
+        'level_text': 'Theorem cb_latest: for every sequence of update maps and every destination, the handler state equals a specification that looks at the latest update alone (enabled thr/100 with minimum sample = volume when both are non-zero; '
+                      'disabled when outlier detection has a zero; disabled when an earlier update configured it and the latest does not; no entry otherwise) - proved by an invariant over arbitrary sequences; late registration starts from the current '
+                      'cluster map (fact replayOnRegister). Validated end to end: protos -> real decoder -> real manager -> real handler -> CBSuite.',
+        'level_note': 'Trusted: Lean kernel; Kitex circuitbreak.CBSuite; extractor (handlers facts); harness.',
+    },
+    'C17': {
+        'rule': '120 real managers, three subscribed route tables; 2-6 route-table updates each, every table present with probability 0.45 (0.8 in the first) so most updates are partial; 0-2 routes per table with attempts 0-5, per-try timeout, '
+                'error rate in {0.1,0.2,0.25,0.3}, back-off absent / base=max / base<max, kitexRetryMethods lists, single and weighted clusters, cluster renames; cluster names distinct across tables; after every update retry.Container.Dump() is compared. '
+                'Non-trivial: the history contains a partial update',
+        'assumptions': COMMON_ASSUME + ['policy fields are within the ranges Kitex accepts (Kitex validation is trusted and not modelled)',
+                                         'when several tables mention the same key the surviving policy depends on Go map iteration order; the generator keeps keys distinct across tables',
+                                         'evictions of route tables are outside the property quantifier'],
+        'level_text': 'Theorem retry_tracks_cache: with the regenerated fact that UpdateResource hands merge-type handlers the merged cache, after any sequence of full and partial updates the installed policies are exactly derive(cached tables) '
+                      '(invariant Tracks preserved by every update); corollaries: unreferenced keys are removed, a table omitted from a partial update keeps its policies, the policy shape (attempts, uint32 duration attempts x per-try ms, error rate, '
+                      'back-off none/fixed/random by max > base) and no wrap within Kitex ranges. A decide-checked example shows the property fails for the update-map view (the defect S10 that was repaired). Validated end to end through the real decoder, manager and retry container.',
+        'level_note': 'Trusted: Lean kernel; Kitex retry.Container; extractor (mergeView, rdsBackoffBaseOk); harness.',
+    },
+    'C18': {
+        'rule': '120 real managers (half with the name table); service port in {8080, 9090, 0}; 2-6 listener updates each: inbound listener present (80%) with 0-3 filter chains of distinct ports from {0,8080,9090,7070}, RDS / inline / no route specifier, '
+                'rate-limit bucket absent / 0 / 5 / 100 / 100000, or absent; sometimes another listener; the limiter (NewLimiter through server.Options) is created before or after a random update and the server installs a recording limit.Updater at or after creation. '
+                'Non-trivial: at least two updates',
+        'assumptions': COMMON_ASSUME + ['two chains with the same port: the later wins (modelled; outside the property); the rate-limit filter is the first HTTP filter here (its position is C11)'],
+        'level_text': 'Theorems: after any non-empty update sequence the limit is limitOf(port, latest inbound listener): the chain of the configured port, else the chain without port, else unlimited; zero and a missing listener mean unlimited; with distinct '
+                      'chain ports tokensFor is the tokens-per-fill of the chain; once an updater is installed every update pushes exactly one limit; late creation starts from the current listener. Validated end to end.',
+        'level_note': 'Trusted: Lean kernel; Kitex limit.Option / Updater; extractor; harness. MaxConnections is observed to stay unlimited in every run (spec check), not modelled further.',
+    },
 }
